@@ -300,17 +300,12 @@ def sepList0 {α β} (sep : P β) (f : P α) : P (List α) := fun i e =>
 def isSyncCh (c : Char) : Bool := c == '|' || c == ')' || c == ']' || c == '}'
 def isWsSyncCh (c : Char) : Bool := c == ' ' || c == '\t' || c == '\n'
 
-/-- `to_sync_point().end - location_offset()` : CHAR index of the first sync char, else BYTE length -/
-def syncIdx (s : List Char) : Nat :=
-  match s.findIdx? isSyncCh with
-  | some k => k
-  | none => Text.utf8Len s
+/-- `to_sync_point().end - location_offset()` : BYTE offset of the first sync char (`char_indices`),
+else the byte length.  (Before repo commit 8ce3d1f this was the CHAR index, used as a byte offset.) -/
+def syncIdx (s : List Char) : Nat := Text.utf8Len (s.takeWhile (fun c => !isSyncCh c))
 
 /-- `to_whitespace().len()` -/
-def wsIdx (s : List Char) : Nat :=
-  match s.findIdx? isWsSyncCh with
-  | some k => k
-  | none => Text.utf8Len s
+def wsIdx (s : List Char) : Nat := Text.utf8Len (s.takeWhile (fun c => !isWsSyncCh c))
 
 /-- `&s[n..]` with `n` a BYTE offset: `none` = not a char boundary / out of range = panic -/
 def sliceBytes : List Char → Nat → Option (List Char)
@@ -336,11 +331,10 @@ def expectAt {α} (line : String) (p : P α) : P (Option α) := fun i e =>
 def expect {α} (p : P α) : P (Option α) := expectAt "262" p
 def expectFn {α} (p : P α) : P (Option α) := expectAt "287" p
 
-/-- the skip loop of `expect_delimited` (lang.rs:319-343): one BYTE at a time -/
+/-- the skip loop of `expect_delimited`: one CHARACTER at a time (one byte before 8ce3d1f) -/
 def skipLoop {α} (third : P Unit) (o2 : α) : List Char → Nat → Res α
   | [], e => .ok o2 [] (e + 1)
-  | c :: cs, e =>
-    if c.utf8Size > 1 then .panic (panicSlice "331") else
+  | _ :: cs, e =>
     match third cs e with
     | .ok _ r e1 => .ok o2 r (e1 + 1)
     | .fail _ e1 => skipLoop third o2 cs e1
@@ -369,17 +363,19 @@ def endOfQuery : P Unit := peek (ws0 *> alt (peek (tag "|")) eof)
 /-- `expect_pipe(msg)` -/
 def expectPipe : P Unit := pmap (fun _ => ()) (expect (peek (ws0 *> alt (tag "|") eof)))
 
-/-! ### character classes with the truncating `c as u8` casts -/
+/-! ### character classes (ASCII) -/
 
 def isAlpha8 (b : Nat) : Bool := (0x41 ≤ b && b ≤ 0x5A) || (0x61 ≤ b && b ≤ 0x7A)
 def isDigit8 (b : Nat) : Bool := 0x30 ≤ b && b ≤ 0x39
 def isAlnum8 (b : Nat) : Bool := isAlpha8 b || isDigit8 b
 
-def isIdentCh (c : Char) : Bool := isAlnum8 (c.toNat % 256) || c == '_'
-def startsIdentCh (c : Char) : Bool := isAlpha8 (c.toNat % 256) || c == '_'
+/-- `is_ident` etc. test the character itself (`is_ascii_alphanumeric`); before repo commit
+1e96979 they tested `c as u8`, i.e. `c.toNat % 256` -/
+def isIdentCh (c : Char) : Bool := isAlnum8 c.toNat || c == '_'
+def startsIdentCh (c : Char) : Bool := isAlpha8 c.toNat || c == '_'
 def isKeywordCh (c : Char) : Bool :=
   c == '-' || c == '_' || c == ':' || c == '/' || c == '.' || c == '+' || c == '@' || c == '#' ||
-  c == '$' || c == '%' || c == '^' || c == '*' || isAlnum8 (c.toNat % 256)
+  c == '$' || c == '%' || c == '^' || c == '*' || isAlnum8 c.toNat
 
 /-! ### quoted strings -/
 
@@ -469,31 +465,40 @@ def unitTag : List (String × Int) → P (String × Int)
   | [(u, k)] => pmap (fun _ => (u, k)) (tag u)
   | (u, k) :: rest => alt (pmap (fun _ => (u, k)) (tag u)) (unitTag rest)
 
-/-- `duration_fragment`: chrono's constructors panic outside ±i64::MAX milliseconds -/
+/-- `duration_fragment`: the checked chrono constructors (`try_weeks` …) answer `None` outside
+±i64::MAX milliseconds and `map_opt` turns that into an error at the unit's position.  (Before
+repo commit c7b3e3a the unchecked constructors panicked.) -/
 def durationFragment : P Int := fun i e =>
   match i64Parse i e with
   | .ok amount r e1 =>
     match unitTag unitNs r e1 with
-    | .ok (u, k) r2 e2 =>
-      if Value.inDur (amount * k) then .ok (amount * k) r2 e2
-      else .panic ("lang.rs:843-850 chrono TimeDelta constructor out of bounds (" ++ u ++ ")")
+    | .ok (_, k) r2 e2 =>
+      if Value.inDur (amount * k) then .ok (amount * k) r2 e2 else .fail r e2
     | r => r.castErr
   | r => r.castErr
 
-def durLoop : Nat → Int → List Char → Nat → Res Int
+/-- the fold of `duration`: the accumulator is `None` once a `checked_add` overflowed -/
+def durLoop : Nat → Option Int → List Char → Nat → Res (Option Int)
   | 0, _, _, _ => .unmod "fuel"
   | n + 1, acc, i, e =>
     match durationFragment i e with
     | .fail _ e1 => .ok acc i e1
     | .ok d i1 e1 =>
-      if Value.inDur (acc + d) then durLoop n (acc + d) i1 e1
-      else .panic "lang.rs:858 TimeDelta + TimeDelta overflowed"
+      let acc' := match acc with
+        | some a => if Value.inDur (a + d) then some (a + d) else none
+        | none => none
+      durLoop n acc' i1 e1
     | r => r.castErr
 
-/-- `duration` = `fold_many1(duration_fragment, zero, +)`; first failure → error at the input -/
+/-- `duration` = `map_opt(fold_many1(duration_fragment, Some(zero), checked_add))`; a failing first
+fragment and an overflowed sum are both errors at the input -/
 def duration : P Int := fun i e =>
   match durationFragment i e with
-  | .ok d i1 e1 => durLoop (i1.length + 1) d i1 e1
+  | .ok d i1 e1 =>
+    match durLoop (i1.length + 1) (some d) i1 e1 with
+    | .ok (some total) r e2 => .ok total r e2
+    | .ok none _ e2 => .fail i e2
+    | r => r.castErr
   | .fail _ e1 => .fail i e1
   | r => r
 
@@ -521,7 +526,7 @@ def argList (optE : P Expr) : P (List Expr) :=
 
 /-- `single_arg` -/
 def singleArg (optE : P Expr) : P Expr :=
-  expectDelimited (tag "(" *> ws0) (pmap (fun o => o.getD Expr.error) (expectFn optE)) (tag ")")
+  expectDelimited (tag "(" *> ws0) (pmap (fun o => o.getD Expr.error) (expectFn optE)) (ws0 *> tag ")")
 
 /-- `req_single_arg` -/
 def reqSingleArg (optE : P Expr) : P Expr :=
@@ -548,7 +553,7 @@ def ifOp (optE : P Expr) : P Expr := do
 
 def atomic (pe optE : P Expr) : P Expr :=
   altL [ifOp optE, fcall optE, pmap Expr.val valueP, columnRef,
-        expectDelimited (tag "(") pe (tag ")")]
+        expectDelimited (tag "(") pe (ws0 *> tag ")")]
 
 def unary (pe optE : P Expr) : P Expr := do
   let op ← opt (tag "!")
@@ -644,33 +649,26 @@ def filterAtom : P (Option Search) :=
 def filterNot (low : P (Option Search)) : P (Option Search) :=
   pmap (fun o => o.map Search.not) (tag "NOT" *> ws1 *> low)
 
-def pairSearch (mk : List Search → Search) : Option Search → Option Search → Option Search
-  | some l, some r => some (mk [l, r])
-  | some l, none => some l
-  | none, some r => some r
-  | none, none => none
+/-- `filter_chain`: the operands of a chain of `AND`s / `OR`s; empty keywords drop out -/
+def filterChain (mk : List Search → Search) (operands : List (Option Search)) : Option Search :=
+  match operands.filterMap id with
+  | [] => none
+  | [x] => some x
+  | xs => some (mk xs)
 
-def filterExplicitAnd (low : P (Option Search)) : P (Option Search) := do
-  let l ← low
-  ws1; tag "AND"; ws1
-  let r ← low
-  pure (pairSearch Search.and l r)
+/-- `mid_filter`: `low (AND low)*` (exactly two operands before repo commit f43daf2) -/
+def midFilter (low : P (Option Search)) : P (Option Search) :=
+  pmap (filterChain Search.and) (sepList1 (ws1 *> tag "AND" <* ws1) low)
 
-def midFilter (low : P (Option Search)) : P (Option Search) := alt (filterExplicitAnd low) low
-
-def filterExplicitOr (low : P (Option Search)) : P (Option Search) := do
-  let l ← midFilter low
-  ws1; tag "OR"; ws1
-  let r ← midFilter low
-  pure (pairSearch Search.or l r)
-
-def highFilter (low : P (Option Search)) : P (Option Search) := alt (filterExplicitOr low) (midFilter low)
+/-- `high_filter`: `mid (OR mid)*` -/
+def highFilter (low : P (Option Search)) : P (Option Search) :=
+  pmap (filterChain Search.or) (sepList1 (ws1 *> tag "OR" <* ws1) (midFilter low))
 
 def lowFilterN : Nat → P (Option Search)
   | 0 => fun _ _ => .unmod "fuel"
   | n + 1 =>
     altL [filterNot (lowFilterN n), filterAtom,
-          expectDelimited (tag "(") (highFilter (lowFilterN n)) (tag ")")]
+          expectDelimited (tag "(" <* ws0) (highFilter (lowFilterN n)) (ws0 *> tag ")")]
 
 /-- `parse_search` -/
 def parseSearch (n : Nat) : P Search :=
@@ -825,7 +823,7 @@ def aliasKeywords : List String := ["apache", "k8singressnginx", "testmultiopera
 def validOperators : List String := validInline ++ validAggregates ++ aliasKeywords
 
 /-- `var_list` -/
-def varList : P (List String) := sepList1 (tag ",") (ws0 *> ident)
+def varList : P (List String) := sepList1 (ws0 *> tag ",") (ws0 *> ident)
 
 /-- `sourced_expr`: `recognize(expr)` and then `expr` AGAIN on the recognised text alone -/
 def sourcedExpr (env : Env) : P (String × Expr) := fun i e =>
@@ -844,9 +842,9 @@ def sourcedExprList (env : Env) : P (List (String × Expr)) :=
   sepList1 (ws0 *> tag "," <* ws0) (sourcedExpr env)
 
 def sortMode : P SortDir :=
-  altL [pmap (fun _ => SortDir.asc) (tag "asc"), pmap (fun _ => SortDir.asc) (tag "ascending"),
-        pmap (fun _ => SortDir.desc) (tag "desc"), pmap (fun _ => SortDir.desc) (tag "dsc"),
-        pmap (fun _ => SortDir.desc) (tag "descending")]
+  altL [pmap (fun _ => SortDir.asc) (tag "ascending"), pmap (fun _ => SortDir.asc) (tag "asc"),
+        pmap (fun _ => SortDir.desc) (tag "descending"), pmap (fun _ => SortDir.desc) (tag "desc"),
+        pmap (fun _ => SortDir.desc) (tag "dsc")]
 
 def sortOp (env : Env) : P Operator := do
   tag "sort"
@@ -1105,6 +1103,8 @@ def didYouMean (env : Env) : P Operator := do
     let s := String.ofList i
     !(if isAgg then validAggregates.contains s else validOperators.contains s))
   reportN bad.length
+  -- every name is valid yet no operator parser took the text: still a diagnostic (repo aca43de)
+  if bad.isEmpty then report
   pure .error
 
 /-- `garbage` -/
@@ -1156,9 +1156,10 @@ def parseChars (cs : List Char) : ParseResult :=
   let env : Env := { pe := exprN n, optE := optExprN n, aliases := aliasTable }
   match parseSearch n cs 0 with
   | .ok search r1 e1 =>
-    match opt (tag "|" *> parseOperators env) r1 e1 with
-    | .ok ops _ e2 =>
-      if e2 > 0 then .reject else .accept { search := search, ops := ops.getD [] }
+    match (opt (ws0 *> tag "|" *> parseOperators env) <* ws0) r1 e1 with
+    | .ok ops rest e2 =>
+      -- leftover text is reported (repo a4c4b50): the query is rejected
+      if e2 > 0 || !rest.isEmpty then .reject else .accept { search := search, ops := ops.getD [] }
     | .fail _ _ => .reject
     | .failure _ _ => .reject
     | .panic s => .panic s
